@@ -294,6 +294,31 @@ func stdinFail(b []byte, err error) {
 	os.Stdin = os.NewFile(uintptr(fds[0]), "/dev/stdin")
 }
 
+// ---- HTTP GET / JSON decode / mkdir bridges (engine only; natively the real functions run) ----
+
+// JSONDecodeFn is what json.NewDecoder(r).Decode(v) does under the engine (encoding/json is
+// reflection-based and not executed): the harness fills v with the value it serves natively as JSON.
+var JSONDecodeFn func(v interface{}) error
+
+func NewJSONDecoder() *json.Decoder { return new(json.Decoder) }
+
+func JSONDecode(v interface{}) error {
+	if JSONDecodeFn == nil {
+		return errors.New("verif: no JSONDecodeFn")
+	}
+	return JSONDecodeFn(v)
+}
+
+// MkdirAllFn is what os.MkdirAll(path, ...) returns under the engine (nil when unset).
+var MkdirAllFn func(path string) error
+
+func MkdirAll(path string) error {
+	if MkdirAllFn == nil {
+		return nil
+	}
+	return MkdirAllFn(path)
+}
+
 // ReadDirFn, when set, is what os.ReadDir(path) returns under the engine: the entry names (all
 // reported as directories when dirs is true) and whether the directory exists (otherwise
 // os.ReadDir fails with an error for which os.IsNotExist is true). Natively it is ignored: the
